@@ -54,6 +54,10 @@ type funcSpec struct {
 	// (for a tail that is outside the fragment; what is assumed about it is said in DESIGN.md §5.3)
 	stopAt  string
 	stopRet []string
+	// tape: crypto/rand is an explicit state (type variable τ): an extra parameter `tape__`, handed back; rand.Read draws from it
+	tape bool
+	// threaded: abstract callees that take and hand back state: "pkg.Name" -> the Go variables (arguments of the call) or "tape"
+	threaded map[string][]string
 }
 
 // The functions translated. Order matters only for readability: dependencies are emitted first automatically.
@@ -88,6 +92,9 @@ var funcSpecs = []funcSpec{
 		fuel: map[int]string{1: "(Go.len rr).toNat + 1"}, alias: map[string]string{"sr.r": "rr"},
 		stopAt: "rr == input", stopRet: []string{"h", "rr", "none"}},
 	{rel: "", name: "multiUnwrap", abstract: []string{"errors.Is"}},
+	{rel: "", name: "Encrypt", abstract: []string{"age.wrapWithLabels", "age.headerMAC", "age.streamKey", "stream.NewWriter", "format.Marshal"},
+		opaque: map[string]string{"age.Recipient": "ρ", "io.Writer": "δ", "io.WriteCloser": "ω", "stream.Writer": "ω", "tapeτ": "τ"}, errInts: true, tape: true,
+		threaded: map[string][]string{"age.wrapWithLabels": {"tape"}, "format.Marshal": {"dst"}}},
 	{rel: "", name: "Decrypt", abstract: []string{"errors.Is", "age.headerMAC", "age.streamKey", "stream.NewReader", "format.DecodeString"},
 		opaque: map[string]string{"age.Identity": "ι", "stream.Reader": "(List UInt8)"}, allowWrap: true, errCtors: []string{"format.errorf"}},
 	{rel: "", name: "(*ScryptIdentity).unwrap", abstract: []string{"format.DecodeString", "scrypt.Key", "age.aeadDecrypt"}},
@@ -159,6 +166,7 @@ type fctx struct {
 	curE         *emitter
 	curInd       int
 	deferred     []ast.Stmt // bodies of `defer func() { … }()` statements passed so far (function level only)
+	tapeVar      *types.Var // the explicit crypto/rand state (funcSpec.tape)
 	stopped      bool       // funcSpec.stopAt was reached: the remaining statements are not translated
 }
 
@@ -564,6 +572,11 @@ func (c *fctx) exprAs(e ast.Expr, want types.Type) string {
 			}
 			if lt, ok := leanTypeOf(want); ok && strings.HasPrefix(lt, "(List ") {
 				return "[]" // a nil reader / byte source
+			}
+			if lt, ok := leanTypeOf(want); ok && len([]rune(lt)) == 1 {
+				// nil of a type that is opaque here: a parameter stands for it
+				c.useAbstractName("nil_"+lt, "(nil_"+lt+" : "+lt+")")
+				return "nil_" + lt
 			}
 			return "none"
 		}
@@ -1411,6 +1424,9 @@ func (c *fctx) assignedIn(n ast.Node) map[*types.Var]bool {
 				m[v] = true
 			}
 		case *ast.CallExpr:
+			for _, v := range c.threadedVars(s) {
+				m[v] = true
+			}
 			if sel, ok := ast.Unparen(s.Fun).(*ast.SelectorExpr); ok {
 				if sn := c.info().Selections[sel]; sn != nil && isBuilder(sn.Recv()) {
 					if v := root(sel.X); v != nil && sn.Obj().Name() != "String" {
@@ -1490,9 +1506,59 @@ func isBufioReader(t types.Type) bool {
 }
 
 // usedIn collects local variables (of this function) referenced inside n.
+// threadedVars: the state variables a call takes and hands back (funcSpec.tape / threaded / δ.Write)
+func (c *fctx) threadedVars(call *ast.CallExpr) []*types.Var {
+	var out []*types.Var
+	f, _ := c.fi.Pkg.callee(call).(*types.Func)
+	if f == nil || f.Pkg() == nil {
+		return nil
+	}
+	if c.tapeVar != nil && f.Pkg().Path() == "crypto/rand" && f.Name() == "Read" {
+		out = append(out, c.tapeVar)
+	}
+	if c.spec != nil {
+		for _, name := range c.spec.threaded[f.Pkg().Name()+"."+f.Name()] {
+			if name == "tape" && c.tapeVar != nil {
+				out = append(out, c.tapeVar)
+				continue
+			}
+			for _, a := range call.Args {
+				if id, ok := ast.Unparen(a).(*ast.Ident); ok && id.Name == name {
+					if v, ok := c.info().Uses[id].(*types.Var); ok {
+						out = append(out, v)
+					}
+				}
+			}
+		}
+	}
+	if sel, ok := ast.Unparen(call.Fun).(*ast.SelectorExpr); ok && f.Name() == "Write" {
+		if sn := c.info().Selections[sel]; sn != nil {
+			if lt, _ := leanTypeOf(sn.Recv()); lt == "δ" {
+				if id, ok := ast.Unparen(sel.X).(*ast.Ident); ok {
+					if v, ok := c.info().Uses[id].(*types.Var); ok {
+						out = append(out, v)
+					}
+				}
+			}
+		}
+	}
+	return out
+}
+
 func (c *fctx) usedIn(n ast.Node) []*types.Var {
 	seen := map[*types.Var]bool{}
 	var out []*types.Var
+	ast.Inspect(n, func(n ast.Node) bool {
+		if call, ok := n.(*ast.CallExpr); ok {
+			for _, v := range c.threadedVars(call) {
+				if !seen[v] {
+					seen[v] = true
+					out = append(out, v)
+				}
+			}
+		}
+		return true
+	})
 	ast.Inspect(n, func(n ast.Node) bool {
 		if id, ok := n.(*ast.Ident); ok {
 			if v, ok := c.info().Uses[id].(*types.Var); ok && !v.IsField() && v.Parent() != c.fi.Pkg.Types.Scope() && v.Pkg() == c.fi.Pkg.Types {
@@ -1764,6 +1830,10 @@ func (c *fctx) stmt(e *emitter, ind int, s ast.Stmt) {
 		if c.addrArgCall(e, ind, call) {
 			return
 		}
+		if f, ok := c.fi.Pkg.callee(call).(*types.Func); ok && f.Pkg() != nil && f.Pkg().Path() == "sort" && f.Name() == "Strings" {
+			c.assignTo(e, ind, call.Args[0], "(Go.sort_Strings "+c.expr(call.Args[0])+")", false)
+			return
+		}
 		if b, ok := c.fi.Pkg.callee(call).(*types.Builtin); ok && b.Name() == "panic" {
 			k := c.panicN
 			c.panicN++
@@ -1841,7 +1911,18 @@ func (c *fctx) stmt(e *emitter, ind int, s ast.Stmt) {
 			t := c.tmp()
 			e.add(ind, "let "+t+" := "+c.expr(st.Results[0]))
 			if len(c.inouts) > 0 {
-				c.fail(s, "return of a multi-valued call in a function with in-out parameters")
+				var vals []string
+				proj := t
+				for i := range c.results {
+					if i < len(c.results)-1 {
+						vals = append(vals, proj+".1")
+						proj += ".2"
+					} else {
+						vals = append(vals, proj)
+					}
+				}
+				c.emitReturn(e, ind, c.retExpr(vals))
+				return
 			}
 			c.emitReturn(e, ind, t)
 			return
@@ -2468,9 +2549,17 @@ func (t *ftr) translate(fi *FuncInfo, from *fctx, at ast.Node) string {
 			shadow = append(shadow, fmt.Sprintf("let mut %s := %s", c.nameOf(rv), c.nameOf(rv)))
 		}
 	}
+	if spec != nil && spec.tape {
+		tn := types.NewTypeName(fi.Decl.Pos(), fi.Pkg.Types, "tapeτ", nil)
+		c.tapeVar = types.NewVar(fi.Decl.Pos(), fi.Pkg.Types, "tape__", types.NewNamed(tn, types.NewStruct(nil, nil), nil))
+		asg = c.assignedIn(fi.Decl.Body)
+	}
 	cd := c.copyDests()
 	for i := 0; i < sig.Params().Len(); i++ {
 		p := sig.Params().At(i)
+		if lt, _ := leanTypeOf(p.Type()); lt == "δ" && asg[p] {
+			c.inouts = append(c.inouts, p) // a destination the function writes to: its new state is handed back
+		}
 		if _, isSlice := p.Type().Underlying().(*types.Slice); isSlice && cd[p] {
 			// the function fills the caller's buffer: it is handed back. (It must not also be re-sliced.)
 			ast.Inspect(fi.Decl.Body, func(n ast.Node) bool {
@@ -2500,6 +2589,11 @@ func (t *ftr) translate(fi *FuncInfo, from *fctx, at ast.Node) string {
 			shadow = append(shadow, fmt.Sprintf("let mut %s := %s", c.nameOf(p), c.nameOf(p)))
 		}
 		_ = i
+	}
+	if c.tapeVar != nil {
+		params = append(params, fmt.Sprintf("(%s : τ)", c.nameOf(c.tapeVar)))
+		shadow = append(shadow, fmt.Sprintf("let mut %s := %s", c.nameOf(c.tapeVar), c.nameOf(c.tapeVar)))
+		c.inouts = append(c.inouts, c.tapeVar)
 	}
 	var resTys []string
 	for i := 0; i < sig.Results().Len(); i++ {
